@@ -386,6 +386,9 @@ class Executor:
                 return VInt(len(a.items))
             if isinstance(a, VRef):
                 o = state.heap[a.oid]
+                if o.kind == "inst" and o.shape is not None and "__len__" in self.reg.shapes[o.shape].methods:
+                    ext = self.reg.externals[self.reg.shapes[o.shape].methods["__len__"]]
+                    return ext(self, state, [], {}, a)
                 if o.kind == "list":
                     return VInt(len(o.items)) if o.items is not None else VInt(z3.Length(o.seq))
                 if o.kind == "dict":
